@@ -8,6 +8,8 @@ pub struct Sub {
     /// trace endpoint-level datagram drops (their event NAME is `transport:datagram_dropped`, which the
     /// generic endpoint filter below does not select)
     pub endpoint_drops: bool,
+    /// trace label of this endpoint ("" = `c` / `s` from the endpoint type; the second client is `d`)
+    pub label: &'static str,
 }
 
 const WANTED: &[&str] = &[
@@ -41,9 +43,16 @@ const WANTED: &[&str] = &[
     "connectivity:ecn_state_changed",
     "connectivity:connection_migration_denied",
     "recovery:pto_timer_updated",
+    // (the two names above that never matched: the events live in other groups)
+    "transport:path_created",
+    "connectivity:connection_id_updated",
+    "connectivity:path_challenge_updated",
 ];
 
-fn ep(meta: &dyn core::fmt::Debug) -> &'static str {
+fn ep(label: &'static str, meta: &dyn core::fmt::Debug) -> &'static str {
+    if !label.is_empty() {
+        return label;
+    }
     let s = format!("{meta:?}");
     if s.contains("Client") {
         "c"
@@ -63,7 +72,7 @@ impl event::Subscriber for Sub {
         }
         let t = trace::now();
         let txt = format!("{event:?}").replace('\n', " ");
-        trace::line(format!("ev {t} {} {} {} {txt}", ep(&meta.endpoint_type), meta.id, E::NAME));
+        trace::line(format!("ev {t} {} {} {} {txt}", ep(self.label, &meta.endpoint_type), meta.id, E::NAME));
     }
 
     fn on_endpoint_datagram_dropped(&mut self, meta: &events::EndpointMeta, event: &events::EndpointDatagramDropped) {
@@ -72,7 +81,7 @@ impl event::Subscriber for Sub {
         }
         let t = trace::now();
         let txt = format!("{event:?}").replace('\n', " ");
-        trace::line(format!("ev {t} {} - transport:endpoint_datagram_dropped {txt}", ep(&meta.endpoint_type)));
+        trace::line(format!("ev {t} {} - transport:endpoint_datagram_dropped {txt}", ep(self.label, &meta.endpoint_type)));
     }
 
     fn on_event<M: Meta, E: Event>(&mut self, meta: &M, event: &E) {
@@ -85,7 +94,7 @@ impl event::Subscriber for Sub {
         }
         let t = trace::now();
         let txt = format!("{event:?}").replace('\n', " ");
-        trace::line(format!("ev {t} {} - {} {txt}", ep(meta.endpoint_type()), E::NAME));
+        trace::line(format!("ev {t} {} - {} {txt}", ep(self.label, meta.endpoint_type()), E::NAME));
     }
 }
 
